@@ -80,57 +80,74 @@ type c13Body struct {
 	name   string
 	schema map[string]any
 	values []any
+	// optional: the schema as written in the document when it differs from the inline reading the model uses
+	// (alternatives given by reference and selected by a discriminator mapping), with the component schemas it needs
+	docSchema  map[string]any
+	components map[string]any
+}
+
+// three alternatives told apart by a discriminator property; in the document they are component schemas selected by a mapping
+var c13Pets = map[string]any{
+	"Cat":  m("type", "object", "properties", m("petType", m("type", "string", "enum", l("cat")), "indoor", m("type", "boolean", "default", true)), "required", l("petType")),
+	"Dog":  m("type", "object", "properties", m("petType", m("type", "string", "enum", l("dog")), "leash", m("type", "string", "default", "short")), "required", l("petType")),
+	"Bird": m("type", "object", "properties", m("petType", m("type", "string", "enum", l("bird")), "cage", m("type", "integer", "default", 2.0)), "required", l("petType")),
 }
 
 var c13Bodies = []c13Body{
-	{"none", nil, []any{nil}},
-	{"flat", m("type", "object", "properties", m("a", m("type", "integer", "default", 1.0), "b", m("type", "string"))),
-		[]any{m(), m("a", 2.0), m("b", "s"), m("a", "bad")}},
-	{"nested", m("type", "object", "properties", m("o", m("type", "object", "properties", m("c", m("type", "string", "default", "dc"))),
+	{name: "none", values: []any{nil}},
+	{name: "oneOf-discriminator-mapping",
+		schema: m("oneOf", l(c13Pets["Cat"], c13Pets["Dog"], c13Pets["Bird"])),
+		values: []any{m("petType", "cat"), m("petType", "dog"), m("petType", "bird"), m("petType", "dog", "leash", "long"), m("petType", "fish")},
+		docSchema: m("oneOf", l(m("$ref", "#/components/schemas/Cat"), m("$ref", "#/components/schemas/Dog"), m("$ref", "#/components/schemas/Bird")),
+			"discriminator", m("propertyName", "petType", "mapping", m("cat", "#/components/schemas/Cat", "dog", "#/components/schemas/Dog", "bird", "#/components/schemas/Bird"))),
+		components: c13Pets},
+	{name: "flat", schema: m("type", "object", "properties", m("a", m("type", "integer", "default", 1.0), "b", m("type", "string"))),
+		values: []any{m(), m("a", 2.0), m("b", "s"), m("a", "bad")}},
+	{name: "nested", schema: m("type", "object", "properties", m("o", m("type", "object", "properties", m("c", m("type", "string", "default", "dc"))),
 		"l", m("type", "array", "items", m("type", "object", "properties", m("d", m("type", "integer", "default", 3.0)))))),
-		[]any{m(), m("o", m()), m("o", m("c", "v")), m("l", l(m(), m("d", 1.0))), m("o", m(), "l", l(m()))}},
-	{"allOf", m("allOf", l(m("type", "object", "properties", m("a", m("type", "integer", "default", 1.0))), m("type", "object", "properties", m("b", m("type", "string", "default", "db"))))),
-		[]any{m(), m("a", 5.0), m("b", "x"), m("a", 5.0, "b", "x")}},
-	{"oneOf-objects", m("oneOf", l(
+		values: []any{m(), m("o", m()), m("o", m("c", "v")), m("l", l(m(), m("d", 1.0))), m("o", m(), "l", l(m()))}},
+	{name: "allOf", schema: m("allOf", l(m("type", "object", "properties", m("a", m("type", "integer", "default", 1.0))), m("type", "object", "properties", m("b", m("type", "string", "default", "db"))))),
+		values: []any{m(), m("a", 5.0), m("b", "x"), m("a", 5.0, "b", "x")}},
+	{name: "oneOf-objects", schema: m("oneOf", l(
 		m("type", "object", "properties", m("k", m("type", "string", "enum", l("x")), "dx", m("type", "string", "default", "DX")), "required", l("k")),
 		m("type", "object", "properties", m("k", m("type", "string", "enum", l("y")), "dy", m("type", "string", "default", "DY")), "required", l("k")))),
-		[]any{m("k", "x"), m("k", "y"), m("k", "y", "dy", "v"), m("k", "z")}},
-	{"anyOf-objects", m("anyOf", l(
+		values: []any{m("k", "x"), m("k", "y"), m("k", "y", "dy", "v"), m("k", "z")}},
+	{name: "anyOf-objects", schema: m("anyOf", l(
 		m("type", "object", "properties", m("k", m("type", "string", "enum", l("x")), "dx", m("type", "string", "default", "DX")), "required", l("k")),
 		m("type", "object", "properties", m("k", m("type", "string", "enum", l("y")), "dy", m("type", "string", "default", "DY")), "required", l("k")))),
-		[]any{m("k", "x"), m("k", "y"), m("k", "z")}},
-	{"oneOf-arrays", m("oneOf", l(
+		values: []any{m("k", "x"), m("k", "y"), m("k", "z")}},
+	{name: "oneOf-arrays", schema: m("oneOf", l(
 		m("type", "array", "items", m("type", "object", "properties", m("t", m("type", "string", "enum", l("x")), "color", m("type", "string", "default", "red")), "required", l("t"))),
 		m("type", "array", "items", m("type", "object", "properties", m("t", m("type", "string", "enum", l("y")), "size", m("type", "integer", "default", 9.0)), "required", l("t"))))),
-		[]any{l(m("t", "y")), l(m("t", "x"), m("t", "x")), l(m("t", "y"), m("t", "y", "size", 1.0))}},
-	{"anyOf-arrays", m("anyOf", l(
+		values: []any{l(m("t", "y")), l(m("t", "x"), m("t", "x")), l(m("t", "y"), m("t", "y", "size", 1.0))}},
+	{name: "anyOf-arrays", schema: m("anyOf", l(
 		m("type", "array", "items", m("type", "object", "properties", m("t", m("type", "string", "enum", l("x")), "color", m("type", "string", "default", "red")), "required", l("t"))),
 		m("type", "array", "items", m("type", "object", "properties", m("t", m("type", "string", "enum", l("y")), "size", m("type", "integer", "default", 9.0)), "required", l("t"))))),
-		[]any{l(m("t", "y")), l(m("t", "x"))}},
+		values: []any{l(m("t", "y")), l(m("t", "x"))}},
 }
 
 // further body schemas of the thorough tier: three alternatives, compositions inside compositions and below a property,
 // objects inside arrays inside an alternative that fails only after the array was visited
 var c13BodiesThorough = []c13Body{
-	{"oneOf-three-objects", m("oneOf", l(
+	{name: "oneOf-three-objects", schema: m("oneOf", l(
 		m("type", "object", "properties", m("k", m("type", "string", "enum", l("x")), "dx", m("type", "string", "default", "DX")), "required", l("k"), "additionalProperties", false),
 		m("type", "object", "properties", m("k", m("type", "string", "enum", l("y")), "dy", m("type", "string", "default", "DY")), "required", l("k"), "additionalProperties", false),
 		m("type", "object", "properties", m("k", m("type", "string", "enum", l("z")), "dz", m("type", "boolean", "default", false)), "required", l("k"), "additionalProperties", false))),
-		[]any{m("k", "x"), m("k", "y"), m("k", "z"), m("k", "w"), m("k", "y", "dy", "given")}},
-	{"allOf-with-oneOf-inside", m("allOf", l(
+		values: []any{m("k", "x"), m("k", "y"), m("k", "z"), m("k", "w"), m("k", "y", "dy", "given")}},
+	{name: "allOf-with-oneOf-inside", schema: m("allOf", l(
 		m("type", "object", "properties", m("a", m("type", "integer", "default", 1.0))),
 		m("oneOf", l(
 			m("type", "object", "properties", m("k", m("type", "string", "enum", l("x")), "dx", m("type", "string", "default", "DX")), "required", l("k")),
 			m("type", "object", "properties", m("k", m("type", "string", "enum", l("y")), "dy", m("type", "string", "default", "DY")), "required", l("k")))))),
-		[]any{m("k", "x"), m("k", "y", "a", 2.0), m("k", "z")}},
-	{"oneOf-below-a-property", m("type", "object", "properties", m("top", m("type", "string", "default", "T"), "p", m("anyOf", l(
+		values: []any{m("k", "x"), m("k", "y", "a", 2.0), m("k", "z")}},
+	{name: "oneOf-below-a-property", schema: m("type", "object", "properties", m("top", m("type", "string", "default", "T"), "p", m("anyOf", l(
 		m("type", "object", "properties", m("k", m("type", "string", "enum", l("x")), "dx", m("type", "string", "default", "DX")), "required", l("k")),
 		m("type", "object", "properties", m("k", m("type", "string", "enum", l("y")), "dy", m("type", "string", "default", "DY")), "required", l("k")))))),
-		[]any{m(), m("p", m("k", "x")), m("p", m("k", "y"), "top", "given"), m("p", m("k", "z"))}},
-	{"oneOf-objects-holding-arrays", m("oneOf", l(
+		values: []any{m(), m("p", m("k", "x")), m("p", m("k", "y"), "top", "given"), m("p", m("k", "z"))}},
+	{name: "oneOf-objects-holding-arrays", schema: m("oneOf", l(
 		m("type", "object", "properties", m("lines", m("type", "array", "items", m("type", "object", "properties", m("qty", m("type", "integer", "default", 100.0)))), "type", m("type", "string", "enum", l("bulk"))), "required", l("type")),
 		m("type", "object", "properties", m("lines", m("type", "array", "items", m("type", "object", "properties", m("unit", m("type", "string", "default", "pc")))), "type", m("type", "string", "enum", l("single"))), "required", l("type")))),
-		[]any{m("type", "single", "lines", l(m(), m("unit", "kg"))), m("type", "bulk", "lines", l(m())), m("type", "single"), m("type", "other", "lines", l(m()))}},
+		values: []any{m("type", "single", "lines", l(m(), m("unit", "kg"))), m("type", "bulk", "lines", l(m())), m("type", "single"), m("type", "other", "lines", l(m()))}},
 }
 
 type c13ArrStyle struct {
@@ -203,7 +220,11 @@ func (c c13Case) document() map[string]any {
 		op["parameters"] = params
 	}
 	if c.body.schema != nil {
-		op["requestBody"] = m("required", true, "content", m("application/json", m("schema", c.body.schema)))
+		ds := c.body.schema
+		if c.body.docSchema != nil {
+			ds = c.body.docSchema
+		}
+		op["requestBody"] = m("required", true, "content", m("application/json", m("schema", ds)))
 	}
 	switch c.auth {
 	case 1:
@@ -211,8 +232,11 @@ func (c c13Case) document() map[string]any {
 	case 2:
 		op["security"] = l(m("A", l()), m("B", l()))
 	}
-	return m("openapi", "3.0.3", "info", m("title", "t", "version", "1"), "paths", m("/r", m("post", op)),
-		"components", m("securitySchemes", m("A", m("type", "http", "scheme", "basic"), "B", m("type", "apiKey", "name", "k", "in", "header"))))
+	comps := m("securitySchemes", m("A", m("type", "http", "scheme", "basic"), "B", m("type", "apiKey", "name", "k", "in", "header")))
+	if c.body.components != nil {
+		comps["schemas"] = c.body.components
+	}
+	return m("openapi", "3.0.3", "info", m("title", "t", "version", "1"), "paths", m("/r", m("post", op)), "components", comps)
 }
 
 type c13Snapshot struct {
